@@ -133,7 +133,8 @@ PROPS = {
     },
     "C05": {
         "lean": ["Stackage.Props.C05"],
-        "streams": [{"name": "eqpair", "quick": 3000, "thorough": 60000}, {"name": "equnit", "quick": 1500, "thorough": 30000}],
+        "streams": [{"name": "eqpair", "quick": 3000, "thorough": 60000}, {"name": "equnit", "quick": 1500, "thorough": 30000},
+                    {"name": "eqseqs", "quick": 800, "thorough": 16000}],
         "rule": "eqpair: random trees (every kind, capacity, case-folding, nested stacks / conditions in native, alias, alias-with-String and pointer form, "
                 "operators incl. none and user-defined) whose leaves are drawn type-directed from ~70 Go types ([]int, [3]int, []string, []*int incl. nil "
                 "elements, map[string]int, structs with exported / embedded / private fields, **int, typed nils, funcs, chans, NaN, declared scalar types, "
